@@ -280,16 +280,10 @@ pub fn check_bit_iterators(v: &BitsVal, m: &BitModel, rng: &mut Rng, o: BitOpts,
             got.iter().zip(m.zeros.iter()).position(|(a, b)| a != b), got.len(), m.zeros.len());
         ensure!(ok, "{who}: zeros() does not stay exhausted");
     }
-    // provided iterator methods on the borrowing iterators
+    // provided iterator methods on the concrete iterator types
     if n <= 60_000 {
         let seed = rng.next_u64();
-        if v.iter().is_some() {
-            crate::props::c12::check_adapters(&|| -> Box<dyn Iterator<Item = bool> + '_> { Box::new(v.iter().unwrap()) }, &m.b, seed, &format!("{who} iter()"), ctx)?;
-        }
-        if v.ones().is_some() {
-            crate::props::c12::check_adapters(&|| v.ones().unwrap(), &m.ones, seed ^ 1, &format!("{who} ones()"), ctx)?;
-            crate::props::c12::check_adapters(&|| v.zeros().unwrap(), &m.zeros, seed ^ 2, &format!("{who} zeros()"), ctx)?;
-        }
+        v.check_iter_adapters(m, seed, ctx)?;
     }
     if v.ones().is_some() {
         let mut starts: Vec<usize> = if n <= 300 { (0..=n + 2).collect() } else { vec![0, 1, 63, 64, 65, n - 1, n, n + 1, n + 2, n + 64, n + 600] };
